@@ -128,6 +128,40 @@ def check_gdd(res, name, c, temps, keys, methods=(1, 2, 3)):
 
 def check_canopy(res, name, cc0, ccx, cgc, cdc, times, keys, tag=""):
     n = 0
+    # the model calls the curves with a stress-adjusted maximum CCx below the crop's CCx0 (potential canopy 0.98 CCx0,
+    # adjusted canopy after stress): the growth curve for CCx must not depend on CCx0, stay monotone and inside [0, CCx]
+    # -- on the given times and on a fine grid around the half-cover time where its two branches meet
+    if cc0 > 0 and cgc > 0 and ccx > 2 * cc0:
+        t_half = float(np.log(ccx / 2.0 / cc0) / cgc)
+        for ratio in (0.98, 0.9, 0.7, 0.5):
+            ccx0 = min(1.0, ccx / ratio)
+            width = float(np.log(ccx0 / ccx) / cgc)
+            fine = list(t_half + np.linspace(-1.0, width + 1.0, 25))
+            prevv = None
+            for t in sorted(set([float(x) for x in times] + fine)):
+                if t < 0:
+                    continue
+                v = float(cc_development(cc0, ccx, cgc, cdc, t, "Growth", ccx0))
+                ref = float(cc_development(cc0, ccx, cgc, cdc, t, "Growth", ccx))
+                n += 1
+                if abs(v - ref) > 1e-12:
+                    res.fail("growth_curve_depends_on_ccx0", "%s%s: growth curve for CCx %.6g at t=%.6g is %.9g with CCx0 %.6g but %.9g with CCx0 = CCx" % (
+                        name, tag, ccx, t, v, ccx0, ref))
+                    return n
+                if not (-EPS <= v <= ccx + EPS) or (prevv is not None and v < prevv - EPS):
+                    res.fail("growth_curve_monotone", "%s%s (CCx0 %.6g): growth curve %.9g after %.9g at t=%.6g, CCx %.6g" % (name, tag, ccx0, v, prevv if prevv is not None else -1, t, ccx))
+                    return n
+                prevv = v
+                if t_half - 1.0 <= t <= t_half + width + 1.0:
+                    keys.add("%s/grow-ccx0%s/%.2f/%.3f" % (name, tag, ratio, t))
+            prevv = None
+            for t in times:
+                v = float(cc_development(cc0, ccx, cgc, cdc, t, "Decline", ccx0))
+                n += 1
+                if not (-EPS <= v <= ccx + EPS) or (prevv is not None and v > prevv + EPS):
+                    res.fail("decline_curve_monotone", "%s%s (CCx0 %.6g): decline curve %.9g after %.9g at t=%.4g, CCx %.6g" % (name, tag, ccx0, v, prevv if prevv is not None else -1, t, ccx))
+                    return n
+                prevv = v
     prev = None
     for t in times:
         v = float(cc_development(cc0, ccx, cgc, cdc, t, "Growth", ccx))
